@@ -12,6 +12,14 @@ import NeoModel.Proofs.ExecFrame
 import NeoModel.Proofs.ExecSimK
 import NeoModel.Proofs.ExecNoDev
 import NeoModel.Proofs.ExecCache
+import NeoModel.Proofs.ExecCacheCopy
+import NeoModel.Proofs.ExecExc
+import NeoModel.Proofs.ExecDrop
+import NeoModel.Proofs.ExecSafeDev
+import NeoModel.Proofs.ExecLimit
+import NeoModel.Proofs.ExecCacheDeep
+import NeoModel.Proofs.ExecBlocked
+import NeoModel.Generated.ExcFacts
 namespace NeoModel.Exec
 
 deriving instance DecidableEq for Outcome
@@ -172,7 +180,7 @@ def nativesTree : Tree :=
     .seq (.native false (.neoXfer 1 2 true tag) Flags.all (.put 3 3)
       (.seq (.native true (.mint 99 tag) Flags.all .skip .skip) (.native true (.mint 1 tag) Flags.all .skip .skip)))
     (.seq (.native false (.vote true (tag + 1)) Flags.all .skip (.native true (.mint 99 (tag + 1)) Flags.all .skip .skip))
-    (.seq (n (.transfer 0 notaryAcc minDeposit false)) (.seq (n (.designate 8 1)) (.seq (n (.setWl 3 77)) (n .update)))))
+    (.seq (n (.transfer 0 notaryAcc minDeposit false)) (.seq (n (.designate 8 1)) (.seq (n (.setWl 3 77)) (n (.update 1))))))
   .call 0 Flags.all (.seq (.try_ (.call 3 Flags.all (.seq (ops 1) .throw)) true (.notify 1) false .skip)
     (.seq (.call 3 Flags.all (ops 3)) (.call 3 Flags.all (.seq (.put 0 1) (.native false .destroy Flags.all .skip .skip)))))
 
@@ -181,8 +189,84 @@ def nativesPre : Log := [.set (neoTab, 3) 10, .set (rewardTab, 3) 5, .set (gasTa
 example : (specKRun nativesPre nativesTree).2 = false ∧ (specKRun nativesPre nativesTree).1.halt = true := by decide
 example : (implRun nativesPre nativesTree).eff = (specRun nativesPre nativesTree).eff :=
   impl_refines_spec_unless_finally_commit _ _ (by decide)
+/-- the natives added in the deepening phase in one tree: candidate unregistration / registration, an
+    Oracle request, Notary lockDepositUntil and withdraw (a native-to-native call in a frame of its own),
+    an update with a new NEF — all in a callee that throws (rolled back), then committed — and the
+    destruction of a contract that holds NEO and votes (votes revoked, GAS reward paid to the contract
+    that is about to disappear, then erased and blocked). -/
+def nativesTree2 : Tree :=
+  let n (o : NOp) : Tree := .native false o Flags.all .skip .skip
+  let ops (lockFirst : Bool) : Tree :=
+    .seq (n (.unregCand true)) (.seq (n .regCand) (.seq (n (.oracleReq 1))
+      (.seq (if lockFirst then n (.lock 11) else n (.withdraw 6)) (.seq (n (.withdraw 1)) (n (.update 2))))))
+  .call 0 Flags.all (.seq (.try_ (.call 2 Flags.all (.seq (ops true) .throw)) true (.notify 1) false .skip)
+    (.seq (.call 2 Flags.all (ops false))
+      (.call 3 Flags.all (.native false (.revoke 99 5) Flags.all .skip
+        (.seq (.native true (.mint 99 5) Flags.all .skip .skip) (.native true .destroy Flags.all .skip .skip))))))
+
+def nativesPre2 : Log := [.set (heightTab, 0) 10, .set (notaryTab, 2) 20000001, .set (tillTab, 2) 5,
+  .set (gasTab, notaryAcc) 20000001, .set (neoTab, 3) 10, .set (voteTab, 3) 1, .set (candTab, 0) 10,
+  .set (votersTab, 0) 10, .set (regTab, 0) 1, .set (rewardTab, 3) 7]
+
+example : (specKRun nativesPre2 nativesTree2).2 = false ∧ (specKRun nativesPre2 nativesTree2).1.halt = true := by decide
+example : (implRun nativesPre2 nativesTree2).eff = (specRun nativesPre2 nativesTree2).eff :=
+  impl_refines_spec_unless_finally_commit _ _ (by decide)
+example : (specRun nativesPre2 nativesTree2).events =
+    [(0, 1), (regTab, 0), (regTab, 1), (gasTab, responseGas), (oracleTab, 0), (gasTab, 20000001), (mgmtTab, 202), (voteTab, 3), (gasTab, 7), (mgmtTab, 103)] := by decide
 example : (specKRun [] finallyCallWitness).2 = true := by decide
 example : (implRun [] finallyCallWitness).eff = (specKRun [] finallyCallWitness).1.eff := impl_refines_specK _ _
+
+
+/-! ### 1c. Exactly when a COMPLETED call is dropped, and the syntactic class as a corollary -/
+
+/-- THE COMMIT RULE of vm.go unloadContext + contract/call.go as coded, for EVERY tree, context and
+    state of the implementation model. A contract call that completed:
+    * caller has an active TRY ∧ callee flags allow writing or notifying ∧ an exception is pending when
+      the callee returns  ⇒  every effect of the callee is dropped (own layer, lower layers, notification
+      list exactly as before the call);
+    * in every other case everything the callee did is kept (the caller sees exactly the ledger view and
+      the notification list the callee's run ended with). -/
+theorem completed_call_effects (c' : Nat) (fl : Flags) (body : Tree) (x : Ctx) (s s' : ISt)
+    (h : im (.call c' fl body) x s = .norm s') :
+    ∃ s1, im body ⟨c', x.f.and fl, false, x.h⟩ (if (x.inTry && (x.f.and fl).mut) = true then s.push else s) = .norm s1 ∧
+      s'.exc = s1.exc ∧
+      (if (x.inTry && (x.f.and fl).mut && s1.exc) = true then
+        s'.top = s.top ∧ s'.below = s.below ∧ s'.ev = s.ev
+      else
+        s'.view = s1.view ∧ s'.ev = s1.ev ∧ s'.below = s.below) :=
+  im_completed_call c' fl body x s s' h
+
+/-- ... and an exception can be pending at the callee's return only if it was pending when the call was
+    made: a completed call made while NO exception is pending is always kept in full (and leaves none
+    pending). So the only place where the code drops a successful callee is a call made from a FINALLY
+    block that runs because of an exception (or from something such a block calls). -/
+theorem completed_call_kept (c' : Nat) (fl : Flags) (body : Tree) (x : Ctx) (s s' : ISt)
+    (he : s.exc = false) (h : im (.call c' fl body) x s = .norm s') :
+    ∃ s1, im body ⟨c', x.f.and fl, false, x.h⟩ (if (x.inTry && (x.f.and fl).mut) = true then s.push else s) = .norm s1 ∧
+      s'.view = s1.view ∧ s'.ev = s1.ev ∧ s'.below = s.below ∧ s'.exc = false :=
+  im_completed_call_kept c' fl body x s s' he h
+
+-- non-vacuity: the same completed callee (a write and a notification) under a pending exception with
+-- the caller's TRY active (dropped), without pending exception (kept), under a pending exception with
+-- read-only-or-nothing flags... (kept: no layer), and without TRY (kept)
+example : im (.call 1 Flags.all (.seq (.put 3 3) (.notify 7))) ⟨0, Flags.all, true, true⟩ ⟨[.set (0, 0) 1], [[]], [(0, 5)], true⟩ =
+    .norm ⟨[.set (0, 0) 1], [[]], [(0, 5)], true⟩ := rfl
+example : im (.call 1 Flags.all (.seq (.put 3 3) (.notify 7))) ⟨0, Flags.all, true, true⟩ ⟨[.set (0, 0) 1], [[]], [(0, 5)], false⟩ =
+    .norm ⟨[.set (1, 3) 3, .set (0, 0) 1], [[]], [(0, 5), (1, 7)], false⟩ := rfl
+example : im (.call 1 Flags.all (.seq (.put 3 3) (.notify 7))) ⟨0, Flags.all, false, true⟩ ⟨[.set (0, 0) 1], [[]], [(0, 5)], true⟩ =
+    .norm ⟨[.set (1, 3) 3, .set (0, 0) 1], [[]], [(0, 5), (1, 7)], true⟩ := rfl
+
+/-- the syntactic class of `impl_refines_spec_partial` is a sufficient condition for the dynamic one of
+    `impl_refines_spec_unless_finally_commit`: on a tree whose FINALLY blocks make no calls the
+    deviating rule is never applied. (So the former theorem is a corollary of the latter.) -/
+theorem safe_never_deviates (pre : Log) (t : Tree) (hs : safe t = true) : (specKRun pre t).2 = false := by
+  have h := (safe_dev t entryId Flags.all false ⟨pre, [], false, false⟩ hs rfl).1
+  unfold specKRun
+  cases hr : spK t entryId Flags.all false ⟨pre, [], false, false⟩ <;> rw [hr] at h <;> exact h
+
+example : (specKRun demoPre demoTree).2 = false := safe_never_deviates _ _ (by decide)
+example : (implRun demoPre demoTree).eff = (specRun demoPre demoTree).eff :=
+  impl_refines_spec_unless_finally_commit _ _ (safe_never_deviates _ _ (by decide))
 
 /-- The replay of the defect this check found and /repo fixed in db399c7 (a call made from a CATCH
     block whose TRY also has a FINALLY was not isolated in a layer, so the finally block ran on the
@@ -442,6 +526,11 @@ theorem facts_required_flags (f : Flags) :
     (f.r && f.w && f.n) = f.has (need "PolicyContract.removeWhitelistFeeContract") ∧
     (f.r && f.w && f.c && f.n) = f.has (need "NeoToken.transfer") ∧
     (f.r && f.w && f.n) = f.has (need "NeoToken.vote") ∧
+    (f.r && f.w && f.n) = f.has (need "NeoToken.registerCandidate") ∧
+    (f.r && f.w && f.n) = f.has (need "NeoToken.unregisterCandidate") ∧
+    (f.r && f.w && f.n) = f.has (need "OracleContract.request") ∧
+    (f.r && f.w) = f.has (need "Notary.lockDepositUntil") ∧
+    (f.r && f.w && f.c && f.n) = f.has (need "Notary.withdraw") ∧
     f.mut = decide (f.toNat &&& ExecFacts.wrapMask ≠ 0) := by
   obtain ⟨r, w, c, n⟩ := f
   cases r <;> cases w <;> cases c <;> cases n <;> decide
@@ -466,5 +555,197 @@ open NeoModel.Generated in
 theorem native_ro_cache_never_written :
     ExecFacts.roCacheWrites = [] ∧ 0 < ExecFacts.roCacheSites ∧ 0 < ExecFacts.rwCacheSites := by decide
 
+
+/-! ### 5. What is catchable (regenerated from source + the model-side counterpart) -/
+
+open NeoModel.Generated in
+/-- vm.go as it is now: only the opcode cases THROW, PICKITEM, SETITEM raise a catchable exception (call
+    v.throw); only ENDFINALLY re-raises a pending one; the functions that can reach handleException are
+    `execute` and `throw`, both unexported; pkg/core/interop and pkg/core/native contain NO reference to
+    the exception machinery (no system call or native method can raise a catchable exception) but do
+    panic / return errors; the only recover() of vm + interop + native is the one of vm.execute and it
+    puts the VM into the FAULT state; an error returned by a system call handler and an error of the
+    context-unload callback are re-panicked; the native continuation `onUnloaded` is guarded by a panic
+    when an exception is pending (an exception may not cross a native frame); ABORT/ABORTMSG panic. -/
+theorem facts_exceptions :
+    ExcFacts.throwOpcodes = ["PICKITEM", "SETITEM", "THROW"] ∧
+    ExcFacts.rethrowOpcodes = ["ENDFINALLY"] ∧
+    ExcFacts.abortOpcodes = ["ABORT", "ABORTMSG"] ∧
+    ExcFacts.raisers = [("execute", false), ("throw", false)] ∧
+    ExcFacts.excAssigns = [("Reset", "nil"), ("handleException", "nil"), ("throw", "item")] ∧
+    ExcFacts.recoverHandlers = [("pkg/vm/vm.go", "execute", true)] ∧
+    ExcFacts.syscallErr = ["panic", "panic"] ∧
+    ExcFacts.unloadErr = "panic(errors.New(errMessage))" ∧
+    ExcFacts.onUnloadedGuard = "if v.uncaughtException != nil { panic(v.uncaughtException) }" ∧
+    ExcFacts.coreExcRefs = [] ∧ 0 < ExcFacts.corePanicSites ∧ 0 < ExcFacts.coreErrReturns := by decide
+
+/-- the model-side counterpart, for EVERY tree, context and state: without a THROW instruction no
+    exception is ever raised — whatever system calls without the required flags, natives that fail
+    their checks, calls of destroyed contracts, ABORT do, the run ends normally with the register
+    empty or FAULTs, it never unwinds to a handler. -/
+theorem only_throw_is_catchable (t : Tree) (x : Ctx) (s : ISt) (ht : throwFree t = true) (he : s.exc = false) :
+    match im t x s with
+    | .norm s' => s'.exc = false
+    | .thrown _ => False
+    | .fault _ => True := by
+  have := im_no_throw t x s ht he
+  unfold NoExc at this
+  exact this
+
+/-- so a catch block guarding code without THROW is dead code. -/
+theorem catch_dead_without_throw (body cat cat' fin : Tree) (hasF : Bool) (x : Ctx) (s : ISt)
+    (ht : throwFree body = true) (he : s.exc = false) :
+    im (.try_ body true cat hasF fin) x s = im (.try_ body true cat' hasF fin) x s :=
+  im_catch_dead body cat cat' fin hasF x s ht he
+
+-- non-vacuity: a guarded Policy setter under ReadOnly flags, a guarded write under ReadOnly, a guarded
+-- GAS transfer whose payment callback aborts: FAULT, the catch block's notification is not delivered
+example : throwFree (.seq (.native false (.setFee 5) (Flags.ofNat 5) .skip .skip)
+    (.native false (.transfer 0 1 0 true) Flags.all .abort .skip)) = true := by decide
+example : (implRun [] (.call 0 Flags.all (.try_ (.native false (.setFee 5) (Flags.ofNat 5) .skip .skip) true (.notify 1) false .skip))).halt = false := by decide
+example : (implRun [] (.call 0 Flags.all (.try_ (.call 1 (Flags.ofNat 5) (.put 1 1)) true (.notify 1) false .skip))).halt = false := by decide
+example : (implRun [] (.call 0 Flags.all (.try_ (.native false (.transfer 0 1 0 true) Flags.all .abort .skip) true (.notify 1) false .skip))).halt = false := by decide
+-- ... whereas THROW at the same place is caught
+example : (implRun [] (.call 0 Flags.all (.try_ (.call 1 (Flags.ofNat 5) .throw) true (.notify 1) false .skip))).eff = (true, [], [(0, 1)]) := by decide
+
+/-! ### 5b. The notification count limit respects rollbacks -/
+
+/-- the notification list of an execution never exceeds interop.MaxNotificationCount: the delivered
+    events of a HALTed transaction and the raw list stored for a FAULTed one. For every tree. -/
+theorem notification_limit (pre : Log) (t : Tree) :
+    (implRun pre t).events.length ≤ maxNotifications ∧ (implRun pre t).raw.length ≤ maxNotifications := by
+  have h := im_ev_bound t rootCtx ⟨[], [pre], [], false⟩ (Nat.zero_le _)
+  unfold implRun
+  cases hr : im t rootCtx ⟨[], [pre], [], false⟩ <;> rw [hr] at h <;> simp only [EvBound, Res.st] at h <;>
+    simp [h]
+
+/-- `n` notifications in a row. -/
+def notifyN (e : Nat) : Nat → Tree
+  | 0 => .skip
+  | n + 1 => .seq (.notify e) (notifyN e n)
+
+set_option maxRecDepth 100000 in
+-- the limit counts what is IN the list: 510 notifications of a callee that throws are rolled back and free
+-- their room (1 + 511 more are accepted, the transaction HALTs with 512 events) ...
+example : ((implRun [] (.call 0 Flags.all (.seq (.try_ (.call 1 Flags.all (.seq (notifyN 1 510) .throw)) true (.notify 2) false .skip)
+    (notifyN 3 511)))).halt, (implRun [] (.call 0 Flags.all (.seq (.try_ (.call 1 Flags.all (.seq (notifyN 1 510) .throw)) true (.notify 2) false .skip)
+    (notifyN 3 511)))).events.length) = (true, 512) := by decide
+set_option maxRecDepth 100000 in
+-- ... one more is refused: the transaction FAULTs (not catchable), with the full list as raw events
+example : ((implRun [] (.call 0 Flags.all (.seq (.try_ (.call 1 Flags.all (.seq (notifyN 1 510) .throw)) true (.notify 2) false .skip)
+    (.try_ (notifyN 3 512) true .skip false .skip)))).halt, (implRun [] (.call 0 Flags.all (.seq (.try_ (.call 1 Flags.all (.seq (notifyN 1 510) .throw)) true (.notify 2) false .skip)
+    (.try_ (notifyN 3 512) true .skip false .skip)))).raw.length) = (false, 512) := by decide
+
+/-! ### 6. Native caches: Copy() is deep where it matters, nobody writes through GetROCache -/
+
+open NeoModel.Generated CacheFacts in
+set_option maxRecDepth 100000 in
+/-- regenerated from source (go/types over pkg/core/native): the cache types are the six reviewed ones;
+    every reference-typed field of every cache is cloned by Copy() or is shared and NEVER modified in
+    place anywhere in the package (only re-bound); the shared and the shallowly cloned fields are exactly
+    the ones reviewed in Proofs/ExecCacheCopy.lean; nothing is assigned through a pointer to an object a
+    cache container points to. This is the assumption "Copy() returns a cell that shares nothing" of
+    `native_cache_cow`. -/
+theorem native_cache_copy_is_deep :
+    CacheCopy.cacheTypes = reviewedTypes ∧ CacheCopy.fields.all copyOK = true ∧ sharedFields = sharedReviewed ∧
+    shallowFields = shallowReviewed ∧ CacheCopy.pointeeWrites = [] :=
+  CacheFacts.native_cache_copy_is_deep
+
+open NeoModel.Generated CacheFacts in
+/-- regenerated from source: no statement modifies an object obtained through GetROCache; no read-only
+    cache is handed to a function that modifies its parameter (closure over the package's call rows) or
+    to an unreviewed function of another package; the two reviewed exceptions (NEO.PostPersist) are
+    literally guarded by a re-binding to GetRWCache; every object written through has a known origin. -/
+theorem native_ro_cache_not_written_through :
+    CacheCopy.writes.all writeOK = true ∧ CacheCopy.calls.all callOK = true ∧
+    paramWritersStep paramWriters = paramWriters ∧
+    (CacheCopy.writes.all fun w => w.src.all knownSources.contains) = true ∧
+    (CacheCopy.calls.all fun c => c.src.all knownSources.contains) = true ∧
+    0 < CacheCopy.roSites ∧ 0 < CacheCopy.rwSites :=
+  CacheFacts.native_ro_cache_not_written_through
+
+
+/-! ### 6b. Why the shared containers are harmless: a two-level heap model of a cache object
+
+`Deep.H`: objects hold references to containers; `share f` = Copy() copies the reference of field f instead
+of cloning the container (column `action = assign` of the table). If in-place writes happen only on fields
+that Copy() clones — which is what `copyOK` decides over the table — every object is independent of every
+other one, so abstracting a cache object to one value in one cell (`CStack`) loses nothing. -/
+
+/-- Copy(): the new object shows what the original shows, nobody else changes, the invariant (containers of
+    cloned fields have exactly one owner) is kept. For every heap, sharing pattern and object. -/
+theorem cache_copy_independent (share : Nat → Bool) (nf : Nat) (h : Deep.H) (o : Nat)
+    (hi : Deep.Inv share nf h) (ho : o < h.nobj) :
+    Deep.Inv share nf (Deep.copy share nf h o) ∧
+    (∀ f, f < nf → Deep.deep (Deep.copy share nf h o) h.nobj f = Deep.deep h o f) ∧
+    (∀ o' f, o' < h.nobj → f < nf → Deep.deep (Deep.copy share nf h o) o' f = Deep.deep h o' f) :=
+  Deep.copy_spec share nf h o hi ho
+
+-- non-vacuity: a cache of two fields (field 1 shared by Copy, like NeoCache.committee; field 0 cloned, like
+-- NeoCache.gasPerVoteCache): the copy of object 0 shows the same contents
+example : Deep.deep (Deep.copy (fun f => f == 1) 2 ⟨fun _ f => f, fun c => 10 + c, 1, 2⟩ 0) 1 0 = 10 ∧
+    Deep.deep (Deep.copy (fun f => f == 1) 2 ⟨fun _ f => f, fun c => 10 + c, 1, 2⟩ 0) 1 1 = 11 := by decide
+
+/-- re-binding a field (write kind `whole`) — of ANY field, shared or not — and modifying in place a field
+    that Copy() clones change exactly that slot of that object. -/
+theorem cache_write_independent (share : Nat → Bool) (nf : Nat) (h : Deep.H) (o f v : Nat)
+    (hi : Deep.Inv share nf h) (ho : o < h.nobj) (hf : f < nf) :
+    (Deep.Inv share nf (Deep.writeWhole h o f v) ∧ Deep.deep (Deep.writeWhole h o f v) o f = v ∧
+      ∀ o' f', o' < h.nobj → f' < nf → (o' ≠ o ∨ f' ≠ f) → Deep.deep (Deep.writeWhole h o f v) o' f' = Deep.deep h o' f') ∧
+    (share f = false →
+      Deep.Inv share nf (Deep.writeInPlace h o f v) ∧ Deep.deep (Deep.writeInPlace h o f v) o f = v ∧
+      ∀ o' f', o' < h.nobj → f' < nf → (o' ≠ o ∨ f' ≠ f) → Deep.deep (Deep.writeInPlace h o f v) o' f' = Deep.deep h o' f') :=
+  ⟨Deep.writeWhole_spec share nf h o f v hi, fun hs => Deep.writeInPlace_spec share nf h o f v hi ho hf hs⟩
+
+/-- and the condition is needed: an in-place write to a shared field is seen through the original. -/
+theorem cache_shared_inplace_leaks :
+    let share : Nat → Bool := fun f => f == 1
+    let h0 : Deep.H := ⟨fun _ f => f, fun c => 10 + c, 1, 2⟩
+    let h1 := Deep.copy share 2 h0 0
+    Deep.deep (Deep.writeInPlace h1 1 1 99) 0 1 = 99 ∧ Deep.deep h1 0 1 = 11 ∧ Deep.deep (Deep.writeWhole h1 1 1 99) 0 1 = 11 :=
+  Deep.writeInPlace_shared_leaks
+
+
+/-! ### 7. The sorted blocked-accounts cache of Policy (finding blocked-list-stale-index, fixed by cf4871f)
+
+A HALTed transaction that blocks an account (Policy.blockAccount, ContractManagement.destroy) must leave the
+node answering `isBlocked = true` for it. Storage does (the Exec model's `blockTab`); the Policy CACHE is a
+sorted slice searched by binary search (Model/ExecBlocked.lean). Revoking the account's votes pays its GAS
+reward with a payment callback — contract code that may change the list — before the account is inserted.
+This check found that the insertion position was computed before the callback; /repo now computes it in the
+continuation (cf4871f), and the full statement holds. -/
+
+/-- for EVERY sorted cache, account and reward callback that leaves the cache sorted (whatever it blocks or
+    unblocks: `blocked_cache_ops_keep_sorted`), blocking as coded keeps the cache sorted and makes isBlocked
+    answer exactly what storage says. -/
+theorem blocked_cache_matches_storage (cb : List Nat → List Nat) (l : List Nat) (x : Nat)
+    (hs : Blocked.Sorted l) (hcb : Blocked.Sorted (cb l)) :
+    Blocked.Sorted (Blocked.blockCoded cb l x) ∧
+    ∀ y, Blocked.isBlocked (Blocked.blockCoded cb l x) y = true ↔ y ∈ Blocked.blockStore cb l x :=
+  Blocked.blockCoded_ok cb l x hs hcb
+
+/-- the hypothesis on the callback is an invariant of the operations themselves. -/
+theorem blocked_cache_ops_keep_sorted (l : List Nat) (x : Nat) (hs : Blocked.Sorted l) :
+    Blocked.Sorted (Blocked.unblockCoded l x) ∧
+    ∀ cb : List Nat → List Nat, Blocked.Sorted (cb l) → Blocked.Sorted (Blocked.blockCoded cb l x) :=
+  ⟨Blocked.unblockCoded_sorted l x hs, fun cb hcb => (Blocked.blockCoded_ok cb l x hs hcb).1⟩
+
+-- non-vacuity: a sorted list of three accounts; account 7 is blocked while its callback blocks 3 and unblocks 9
+example : Blocked.Sorted [2, 5, 9] := by unfold Blocked.Sorted; decide
+example : Blocked.blockCoded (fun l => Blocked.unblockCoded (Blocked.blockCoded id l 3) 9) [2, 5, 9] 7 = [2, 3, 5, 7] ∧
+    Blocked.isBlocked (Blocked.blockCoded (fun l => Blocked.unblockCoded (Blocked.blockCoded id l 3) 9) [2, 5, 9] 7) 7 = true := by decide
+
+/-- regression example about the rule BEFORE cf4871f (the replay is corpus case `c1{ put 4 1; destroy }` of
+    stream exec): empty cache, account 7 is blocked, its reward callback blocks account 3 — with the position
+    computed before the callback (`blockStale`) the cache ends as [7, 3] and answers `false` for BOTH accounts
+    while storage has both; as coded now it is [3, 7] and answers `true`. -/
+theorem blocked_cache_stale_index :
+    let cb : List Nat → List Nat := fun l => Blocked.blockCoded id l 3
+    Blocked.blockStale cb [] 7 = [7, 3] ∧
+    Blocked.isBlocked (Blocked.blockStale cb [] 7) 7 = false ∧ Blocked.isBlocked (Blocked.blockStale cb [] 7) 3 = false ∧
+    (7 ∈ Blocked.blockStore cb [] 7 ∧ 3 ∈ Blocked.blockStore cb [] 7) ∧
+    Blocked.blockCoded cb [] 7 = [3, 7] ∧
+    Blocked.isBlocked (Blocked.blockCoded cb [] 7) 7 = true ∧ Blocked.isBlocked (Blocked.blockCoded cb [] 7) 3 = true :=
+  Blocked.blockStale_witness
 
 end NeoModel.Exec
